@@ -29,12 +29,12 @@ top of it): `C05_expansion_fields_partial` excludes exactly those histories (`se
 refutes the full statement.
 
 PROPERTY THEOREMS (audited by ./check): C05_pull_refines, C05_pull_in_order, C05_store_of_value, C05_running_total,
-C05_rows_in_range, C05_rows_cover, C05_profile_depth, C05_profile_table, C05_seed_exact, C05_value_exact, C05_value_within_one,
+C05_rows_in_range, C05_rows_cover, C05_profile_depth, C05_profile_table, C05_seed_exact, C05_value_exact, C05_value_within_one, C05_dest_representable, C05_dest_types,
 C05_expansion_values, C05_expansion_fields_partial, C05_expansion_property_partial, C05_KF2_witness, C05_expansion_off,
 C05_untouched, C05_on_minus_expanded, C05_F07_witness_fixed
 -/
 namespace Fit.C05
-open Fit.Expand Fit.Physical Fit.Msg Fit.C05L Fit.C12L Fit.F64
+open Fit.Expand Fit.Physical Fit.Msg Fit.C05L Fit.C12L Fit.F64 Fit.Gen
 open Fit.ExpandSpec (specSeq seedsOtherUnit advance runTotals)
 
 /-! ### bit slices -/
@@ -153,6 +153,33 @@ theorem C05_value_within_one (r) (hr : r ∈ rows) (bits : Nat) (hb : bits < 2 ^
   have := (hval hnn hle).1
   rw [← hphys] at this
   exact withinOne_of _ _ _ _ _ _ q hq hden this
+
+/-- bits a destination base type offers to a non-negative integer coming out of the decoder's uint32 intermediate
+(`convertUint32ToValue`): the width of the unsigned types, one less for the signed ones, never more than 32;
+`none` for float (and non-numeric) destinations -/
+def destBits (bt : Nat) : Option Nat :=
+  if bt = btSint8 then some 7
+  else if bt = btEnum ∨ bt = btByte ∨ bt = btUint8 ∨ bt = btUint8z then some 8
+  else if bt = btSint16 then some 15
+  else if bt = btUint16 ∨ bt = btUint16z then some 16
+  else if bt = btSint32 then some 31
+  else if bt = btUint32 ∨ bt = btUint32z then some 32
+  else if bt = btSint64 then some 32
+  else if bt = btUint64 ∨ bt = btUint64z then some 32
+  else none
+
+/-- **"representable in the destination field"**: an integer below 2^(bits the destination's base type offers) is
+carried by the written value unchanged (`convertU32` = `convertUint32ToValue`; the value's Go integer is `e`). -/
+theorem C05_dest_representable (e bt w : Nat) (hw : destBits bt = some w) (he : e < 2 ^ w) :
+    toInt64? (convertU32 e bt) = some (e : Int) := by
+  unfold destBits at hw
+  unfold convertU32
+  split_ifs at hw ⊢ <;> simp only [Option.some.injEq] at hw <;> subst hw <;>
+    simp only [toInt64?, IntTy.toInt, IntTy.bits, IntTy.signed, Option.some.injEq] <;>
+    norm_num at he ⊢ <;> (try split_ifs) <;> omega
+
+/-- every destination of a component of the profile has an integer base type (no float destination) -/
+theorem C05_dest_types : ∀ r ∈ rows, (destBits r.2.2.2.2.2.1).isSome = true := by decide +kernel
 
 /-- non-vacuity of the value theorems: the rows of the former F07 witnesses are rows of the profile; the physical value
 of speed 1001 (scale 1000 on both sides) is the integer 1001 and that of compressed distance 3 (scale 16 → 100) is
